@@ -26,6 +26,7 @@ import CookModel.Lemmas.DiagPlaceReport
 import CookModel.Lemmas.DiagSoundUsesNone2
 import CookModel.Lemmas.DiagNoticeSpans
 import CookModel.Lemmas.DiagEventExact2
+import CookModel.Lemmas.DiagPlaceFam
 /-
   C07  Diagnostics are sound, complete and placed on the offending construct.
 
@@ -2995,5 +2996,245 @@ example : (c07v_runEvents C01_toyEnv [] ([] : List (Ev Rat)) {}).defineMode ≠ 
   intro ev hev
   simp only [List.mem_cons, List.not_mem_nil, or_false] at hev
   rcases hev with rfl | rfl <;> rfl
+
+-- ===== w6c07rest =====
+/-! ### Placement of the remaining catalogued families (wave 6)
+
+  One GENERIC piece per component parser and tail shape, parameterised by the exact reading of the part that
+  raises the diagnostic; each is placed anywhere among well-spelled segments by `C07_planted_step`.
+  Catalogue entries (`CATALOGUE` in harness/src/props/c07.rs) → piece:
+
+  | catalogue entry | piece |
+  |---|---|
+  | empty ingredient name `@{1%g}` (also NBSP name) | `C07_planted_constructs` (5) covers blank braces; with a quantity: open (see notes/audit-C07.md) |
+  | empty cookware name `#{}` | open |
+  | zero denominator (all six spellings), int overflow | `C07_planted_constructs` (1) for `@x{1/0}`; with `%unit`, mixed, range, cookware: `C07_planted_quantity_family` with the reading of `C07_zero_denominator(_mixed)` |
+  | empty value `@x{%g}`, `@x{= %g}` | `C07_planted_empty_value` |
+  | unit on cookware (three spellings) | `C07_planted_constructs` (2); spaced / no separator: `C07_planted_quantity_family` (cookware clause) |
+  | empty / multiple aliases, ingredient and cookware | `C07_planted_alias_errors` |
+  | duplicate modifier, recipe modifier on cookware | `C07_planted_constructs` (4), `C07_planted_cookware_modifiers` |
+  | timer without unit (five spellings) | `C07_planted_constructs` (3); `~x{5%}`, `~{5% }`: `C07_planted_timer_family` (quantity clause) with the reading of `C07_empty_unit` |
+  | timer without duration, neither name nor quantity, modifier on timer, alias on timer, note on timer | `C07_planted_timer_family`, composed: `C07_planted_timer_no_quantity` |
+  | empty unit warning `@x{5%}` | `C07_planted_empty_unit` |
+  | intermediate-reference syntax (five kinds), on cookware | open: the cut of `&( … )` modifiers in context (`rti_modifiersP`) is not yet a `PlShape` |
+  | analysis-stage kinds (reference, modes, metadata, timer unit checks) | event level: `C07_event_placement`, `C07_ingredient_event_exact`, `C07_cookware_event_exact`, `C07_timer_unit_checks_exact` | -/
+
+/-- **Timers: every parse-stage timer diagnostic, wherever the timer stands and whatever follows it.**
+    The timer is written `~ mods name { Q }` (`c07p_comp`; `PlShapeN`: the token kinds make it a braces component,
+    NO condition on what follows — a note may follow).  From every parser state at that position one iteration of the
+    step loop consumes exactly the timer and pushes EXACTLY, in this order:
+    * `modifiers-not-allowed:timer` (span of all modifier tokens) iff there are modifier tokens;
+    * `alias-not-allowed:timer` (from the first `|` to the end of the name) iff COMPONENT_ALIAS is on and the name has a `|`;
+    * `note-not-allowed:timer` (warning; the parenthesised note, then the position of its `(`) iff `(` … `)` follows
+      (`c07w_noteEvs`: computed from the tokens after the timer);
+    * without quantity tokens (first clause): `timer-missing-quantity` (on the braces) under TIMER_REQUIRES_TIME, otherwise
+      `timer-neither-name-nor-quantity` (from the name offset to the `}`) iff the name is blank, otherwise nothing;
+      with quantity tokens (second clause): what `parse_quantity` pushes on them (`l`, any exact reading), then
+      `timer-missing-unit` iff the quantity read has no unit;
+    * the timer event, whose span is the byte range of the construct (all labels above except the note's lie inside it). -/
+theorem C07_planted_timer_family (T A rest : List Tok) (cs : CharSpec) (e : Ext) (hw : WF T) (tm : Tok)
+    (ms nameT : List Tok) (tob : Tok) (Q : List Tok) (tcb : Tok)
+    (hT : T = A ++ (c07p_comp tm ms nameT tob Q tcb ++ rest))
+    (sh : PlShapeN e .tilde tm ms nameT tob Q tcb) :
+    ((∀ t ∈ Q, isPadK t = true) →
+      PlPieceAt (α := α) T cs e A ⟨c07p_comp tm ms nameT tob Q tcb, fun evs =>
+        evs = c07w_timerHeadEvs ms nameT e ++ c07w_noteEvs T (A.length + (c07p_comp tm ms nameT tob Q tcb).length) ++
+          c07w_timerFinishEvs (offAt T (A.length + 1 + ms.length)) (c07p_body nameT tob Q tcb)
+            (buildText (offAt T (A.length + 1 + ms.length)) nameT) cs e ++
+          [.timer ⟨⟨if (buildText (offAt T (A.length + 1 + ms.length)) nameT).isTextEmpty cs then none
+              else some (buildText (offAt T (A.length + 1 + ms.length)) nameT),
+            c07w_timerFinishQty (buildText (offAt T (A.length + 1 + ms.length)) nameT) cs e⟩,
+            ⟨offAt T A.length, offAt T (A.length + (c07p_comp tm ms nameT tob Q tcb).length)⟩⟩]⟩) ∧
+    (∀ (l : List (Ev α)) (R : ParsedQuantity α → Prop), (∃ t ∈ Q, isPadK t = false) →
+      (∀ sq : BP α, sq.cs = cs → sq.ext = e →
+        Sat (parseQuantity (α := α) Q) sq (fun r s' => Pushed l sq s' ∧ R r)) →
+      PlPieceAt (α := α) T cs e A ⟨c07p_comp tm ms nameT tob Q tcb, fun evs => ∃ q : ParsedQuantity α, R q ∧
+        evs = c07w_timerHeadEvs ms nameT e ++ c07w_noteEvs T (A.length + (c07p_comp tm ms nameT tob Q tcb).length) ++
+          (l ++ c07f_missingUnitEvs q) ++
+          [.timer ⟨⟨if (buildText (offAt T (A.length + 1 + ms.length)) nameT).isTextEmpty cs then none
+              else some (buildText (offAt T (A.length + 1 + ms.length)) nameT), some q.quantity⟩,
+            ⟨offAt T A.length, offAt T (A.length + (c07p_comp tm ms nameT tob Q tcb).length)⟩⟩]⟩) :=
+  ⟨fun hQ => c07w_timer_noqty_piece T A rest cs e tm ms nameT tob Q tcb hT hw sh hQ,
+   fun l R hne hQ => c07w_timer_qty_piece T A rest cs e tm ms nameT tob Q tcb hT hw sh hne l R hQ⟩
+
+/-- **Ingredients and cookware whose quantity raises diagnostics, wherever they stand.**  `@name{Q}` / `#name{Q}`
+    (no modifiers, no alias separator, a non-blank name, not followed by `(`), for ANY exact reading of the quantity
+    tokens by `parse_quantity` (it pushes exactly `l` from every state with these tables and extensions; `R`
+    describes the result): the ingredient pushes exactly `l`, then the ingredient event carrying the quantity read;
+    the cookware item pushes `l`, then `cookware-unit` iff the quantity read has a unit (labelled from the separator,
+    if any, to the end of the unit: `c07f_cwUnitEvs`), then the cookware event.  Readings available:
+    `C07_zero_denominator(_mixed)`, `C07_int_overflow` (value errors), `C07_empty_value_component` (empty value),
+    `C07_empty_unit`, `C07_quiet_quantity`. -/
+theorem C07_planted_quantity_family (T A rest : List Tok) (cs : CharSpec) (e : Ext) (hw : WF T) (tm : Tok)
+    (nameT : List Tok) (tob : Tok) (Q : List Tok) (tcb : Tok)
+    (hT : T = A ++ (c07p_comp tm [] nameT tob Q tcb ++ rest))
+    (ha : e.has Gen.EXT_COMPONENT_ALIAS = false ∨ ∀ t ∈ nameT, t.kind ≠ .or)
+    (hname : (buildText (offAt T (A.length + 1)) nameT).isTextEmpty cs = false)
+    (hne : ∃ t ∈ Q, isPadK t = false) (l : List (Ev α)) (R : ParsedQuantity α → Prop)
+    (hQ : ∀ sq : BP α, sq.cs = cs → sq.ext = e → Sat (parseQuantity (α := α) Q) sq (fun r s' => Pushed l sq s' ∧ R r)) :
+    (PlShape e .at tm [] nameT tob Q tcb rest →
+      PlPieceAt T cs e A ⟨c07p_comp tm [] nameT tob Q tcb, fun evs => ∃ q : ParsedQuantity α, R q ∧
+        evs = l ++ [.ingredient ⟨⟨⟨Modifiers.empty, Span.pos (offAt T (A.length + 1))⟩, none,
+          buildText (offAt T (A.length + 1)) nameT, none, some q.quantity, none⟩,
+          ⟨offAt T A.length, offAt T (A.length + (c07p_comp tm [] nameT tob Q tcb).length)⟩⟩]⟩) ∧
+    (PlShape e .hash tm [] nameT tob Q tcb rest →
+      PlPieceAt T cs e A ⟨c07p_comp tm [] nameT tob Q tcb, fun evs => ∃ q : ParsedQuantity α, R q ∧
+        evs = l ++ c07f_cwUnitEvs q ++ [.cookware ⟨⟨⟨Modifiers.empty, Span.pos (offAt T (A.length + 1))⟩,
+          buildText (offAt T (A.length + 1)) nameT, none, some ⟨q.quantity.val.value, q.quantity.span⟩, none⟩,
+          ⟨offAt T A.length, offAt T (A.length + (c07p_comp tm [] nameT tob Q tcb).length)⟩⟩]⟩) :=
+  ⟨fun sh => c07w_ingredient_qty_piece T A rest cs e tm nameT tob Q tcb hT hw sh ha hname hne l R hQ,
+   fun sh => c07w_cookware_qty_piece T A rest cs e tm nameT tob Q tcb hT hw sh ha hname hne l R hQ⟩
+
+/-- **Empty value, wherever the ingredient stands** (`@x{%g}`, `@x{ %g}`, `@x{= %g}`).  Quantity tokens
+    `blanks (=)? value % unit` with a blank non-numeric value: one iteration pushes EXACTLY `empty-value` (error, parse;
+    labelled with the blank value text — the position after the blanks / lock when there is no value token), then
+    the warning `empty-unit` on the `%` iff the unit is blank too, then the ingredient.  Every extension set. -/
+theorem C07_planted_empty_value (T A rest : List Tok) (cs : CharSpec) (e : Ext) (hw : WF T) (tm : Tok)
+    (nameT : List Tok) (tob : Tok) (pre lk vt ut : List Tok) (pct tcb : Tok)
+    (hT : T = A ++ (c07p_comp tm [] nameT tob (pre ++ (lk ++ (vt ++ pct :: ut))) tcb ++ rest))
+    (sh : PlShape e .at tm [] nameT tob (pre ++ (lk ++ (vt ++ pct :: ut))) tcb rest)
+    (ha : e.has Gen.EXT_COMPONENT_ALIAS = false ∨ ∀ t ∈ nameT, t.kind ≠ .or)
+    (hname : (buildText (offAt T (A.length + 1)) nameT).isTextEmpty cs = false)
+    (hpre : ∀ t ∈ pre, isWsComment t.kind = true)
+    (hlk : lk = [] ∨ ∃ e, lk = [e] ∧ e.kind = .eq)
+    (hhead : lk = [] → ∀ t0, vt.head? = some t0 → isWsComment t0.kind = false ∧ t0.kind ≠ .eq)
+    (hvp : ∀ t ∈ vt, t.kind ≠ .percent) (hp : pct.kind = .percent)
+    (hnone : numOrRange (α := α) (e.has Gen.EXT_RANGE_VALUES) vt = none)
+    (hemp : (buildText ((vt.head?.map (·.start)).getD
+      (offAt (pre ++ (lk ++ (vt ++ pct :: ut))) (pre.length + lk.length + vt.length))) vt).isTextEmpty cs = true) :
+    PlPieceAt T cs e A ⟨c07p_comp tm [] nameT tob (pre ++ (lk ++ (vt ++ pct :: ut))) tcb, fun evs =>
+      ∃ q : ParsedQuantity α,
+        (q.quantity.val.unit = (if (buildText pct.stop ut).isTextEmpty cs then none else some (buildText pct.stop ut)) ∧
+          q.quantity.val.value.lock = lockSpan lk) ∧
+        evs = (emptyValueEv (buildText ((vt.head?.map (·.start)).getD
+              (offAt (pre ++ (lk ++ (vt ++ pct :: ut))) (pre.length + lk.length + vt.length))) vt) ::
+            emptyUnitEvs pct ut cs) ++
+          [.ingredient ⟨⟨⟨Modifiers.empty, Span.pos (offAt T (A.length + 1))⟩, none,
+            buildText (offAt T (A.length + 1)) nameT, none, some q.quantity, none⟩,
+            ⟨offAt T A.length,
+             offAt T (A.length + (c07p_comp tm [] nameT tob (pre ++ (lk ++ (vt ++ pct :: ut))) tcb).length)⟩⟩]⟩ :=
+  c07w_ingredient_qty_piece T A rest cs e tm nameT tob _ tcb hT hw sh ha hname
+    ⟨pct, by simp, by simp [isPadK, hp]⟩ _ _
+    (fun sq h1 h2 => by
+      have := c07e_parseQuantity_empty (α := α) pre lk vt ut pct sq hpre hlk hhead hvp hp (by rw [h2]; exact hnone)
+        (by rw [h1]; exact hemp)
+      rw [h1] at this
+      exact this)
+
+/-- **Empty unit, wherever the component stands** (`@x{5%}`, `@x{5% }`; the same quantity in a timer gives
+    `timer-missing-unit` after it by `C07_planted_timer_family`).  Quantity tokens `value % unit` with a well-formed
+    number / range or non-blank text as value: one iteration pushes EXACTLY the warning `empty-unit` (labelled with
+    the `%`) iff the unit text is blank — nothing otherwise —, then the ingredient. -/
+theorem C07_planted_empty_unit (T A rest : List Tok) (cs : CharSpec) (e : Ext) (hw : WF T) (tm : Tok)
+    (nameT : List Tok) (tob : Tok) (vt ut : List Tok) (pct t0 tcb : Tok)
+    (hT : T = A ++ (c07p_comp tm [] nameT tob (vt ++ pct :: ut) tcb ++ rest))
+    (sh : PlShape e .at tm [] nameT tob (vt ++ pct :: ut) tcb rest)
+    (ha : e.has Gen.EXT_COMPONENT_ALIAS = false ∨ ∀ t ∈ nameT, t.kind ≠ .or)
+    (hname : (buildText (offAt T (A.length + 1)) nameT).isTextEmpty cs = false)
+    (h0 : vt.head? = some t0) (hws : isWsComment t0.kind = false)
+    (heq : t0.kind ≠ .eq) (hvp : ∀ t ∈ vt, t.kind ≠ .percent) (hp : pct.kind = .percent)
+    (hval : (∃ v, numOrRange (α := α) (e.has Gen.EXT_RANGE_VALUES) vt = some (.ok v)) ∨
+      (numOrRange (α := α) (e.has Gen.EXT_RANGE_VALUES) vt = none ∧
+        (buildText t0.start vt).isTextEmpty cs = false)) :
+    PlPieceAt T cs e A ⟨c07p_comp tm [] nameT tob (vt ++ pct :: ut) tcb, fun evs => ∃ q : ParsedQuantity α,
+      q.quantity.val.unit = (if (buildText pct.stop ut).isTextEmpty cs then none else some (buildText pct.stop ut)) ∧
+      evs = (if (buildText pct.stop ut).isTextEmpty cs then
+            [.warning ⟨.warning, .parse, "empty-unit", [⟨pct.start, pct.stop⟩]⟩] else []) ++
+        [.ingredient ⟨⟨⟨Modifiers.empty, Span.pos (offAt T (A.length + 1))⟩, none,
+          buildText (offAt T (A.length + 1)) nameT, none, some q.quantity, none⟩,
+          ⟨offAt T A.length, offAt T (A.length + (c07p_comp tm [] nameT tob (vt ++ pct :: ut) tcb).length)⟩⟩]⟩ :=
+  c07w_ingredient_qty_piece T A rest cs e tm nameT tob _ tcb hT hw sh ha hname
+    ⟨pct, by simp, by simp [isPadK, hp]⟩ _ _
+    (fun sq h1 h2 => by
+      have := C07_empty_unit (α := α) vt ut pct t0 sq h0 hws heq hvp hp (by rw [h1, h2]; exact hval)
+      rw [h1] at this
+      exact this)
+
+/-- **Alias errors, wherever the component stands** (`@a|b|c{}`, `@a|{}`, `#a|b|c{}`, `#a|{}`; COMPONENT_ALIAS on).
+    Name tokens whose first `|` is at index `i`, a non-blank name before it, plain modifier tokens `ms`, blank braces,
+    not followed by `(`.  One iteration pushes EXACTLY `aliasEvs`: `multiple-aliases:<component>` (error, parse; from the
+    first `|` to the end of the name tokens) iff another `|` follows, otherwise `empty-alias:<component>` (the `|` itself)
+    iff the alias text is blank, otherwise nothing; then one `duplicate-modifier` per repeated modifier token (and for
+    cookware `cookware-recipe-modifier` iff `@` is among them); then the component, named by the tokens before the `|`. -/
+theorem C07_planted_alias_errors (T A rest : List Tok) (cs : CharSpec) (e : Ext) (hw : WF T) (tm : Tok)
+    (ms nameT : List Tok) (tob : Tok) (Q : List Tok) (tcb : Tok) (i : Nat)
+    (hT : T = A ++ (c07p_comp tm ms nameT tob Q tcb ++ rest)) (hs : SimpleMods ms)
+    (hQ : ∀ t ∈ Q, isPadK t = true)
+    (he : e.has Gen.EXT_COMPONENT_ALIAS = true) (hi : nameT.findIdx? (fun t => t.kind == .or) = some i)
+    (hname : (buildText (offAt T (A.length + 1 + ms.length)) (nameT.take i)).isTextEmpty cs = false) :
+    (PlShape e .at tm ms nameT tob Q tcb rest →
+      PlPieceAt (α := α) T cs e A ⟨c07p_comp tm ms nameT tob Q tcb, fun evs =>
+        evs = aliasEvs "ingredient" nameT i cs ++ dupEvs ms ++
+          [.ingredient ⟨⟨simpleFlags ms (offAt T (A.length + 1)), none,
+            buildText (offAt T (A.length + 1 + ms.length)) (nameT.take i), aliasRes nameT i cs, none, none⟩,
+          ⟨offAt T A.length, offAt T (A.length + (c07p_comp tm ms nameT tob Q tcb).length)⟩⟩]⟩) ∧
+    (PlShape e .hash tm ms nameT tob Q tcb rest →
+      PlPieceAt (α := α) T cs e A ⟨c07p_comp tm ms nameT tob Q tcb, fun evs =>
+        evs = aliasEvs "cookware" nameT i cs ++ dupEvs ms ++ recipeModEvs ms ++
+          [.cookware ⟨⟨simpleFlags ms (offAt T (A.length + 1)),
+            buildText (offAt T (A.length + 1 + ms.length)) (nameT.take i), aliasRes nameT i cs, none, none⟩,
+          ⟨offAt T A.length, offAt T (A.length + (c07p_comp tm ms nameT tob Q tcb).length)⟩⟩]⟩) :=
+  ⟨fun sh => c07w_ingredient_alias_piece T A rest cs e tm ms nameT tob Q tcb i hT hw sh hs hQ he hi hname,
+   fun sh => c07w_cookware_alias_piece T A rest cs e tm ms nameT tob Q tcb i hT hw sh hs hQ he hi hname⟩
+
+/-- **A timer without quantity anywhere in a step, fully composed** (schema + first clause of
+    `C07_planted_timer_family`).  A step block: well-spelled segments `pre`, the timer `~ mods name {}`, well-spelled
+    segments `post`, with the side conditions of the schema.  Then `parse_step` delivers `Start(Step)`, one
+    text/component event per segment of `pre`, EXACTLY the timer's diagnostics in the order of
+    `C07_planted_timer_family` (modifiers, alias, note, then missing-quantity / neither-name-nor-quantity), the timer
+    event on the byte range of the construct, one event per segment of `post`, `End(Step)` — nothing else, no panic. -/
+theorem C07_planted_timer_no_quantity (pre post : List SegX) (s : BP α) (tpre tpost : List Tok) (tm : Tok)
+    (ms nameT : List Tok) (tob : Tok) (Q : List Tok) (tcb : Tok)
+    (hspre : Spells tpre (pre.flatMap SegX.spell)) (hspost : Spells tpost (post.flatMap SegX.spell))
+    (ht : s.toks = tpre ++ (c07p_comp tm ms nameT tob Q tcb ++ tpost)) (hc : s.cur = 0)
+    (hp : s.panic = none) (hw : WF s.toks)
+    (hpre : segsFollowT s.cs s.ext pre (c07p_comp tm ms nameT tob Q tcb ++ post.flatMap SegX.spell) = true)
+    (hpost : segsFollowT s.cs s.ext post [] = true)
+    (sh : PlShapeN s.ext .tilde tm ms nameT tob Q tcb) (hQ : ∀ t ∈ Q, isPadK t = true) :
+    ∃ (evs1 evs2 : List (Ev α)) (arr : Array (Ev α)),
+      parseStep s = ((), { s with cur := s.toks.length, evs := arr }) ∧
+      arr.toList = s.evs.toList ++ [.start .step] ++ evs1 ++
+        (c07w_timerHeadEvs ms nameT s.ext ++
+          c07w_noteEvs s.toks (tpre.length + (c07p_comp tm ms nameT tob Q tcb).length) ++
+          c07w_timerFinishEvs (offAt s.toks (tpre.length + 1 + ms.length)) (c07p_body nameT tob Q tcb)
+            (buildText (offAt s.toks (tpre.length + 1 + ms.length)) nameT) s.cs s.ext ++
+          [.timer ⟨⟨if (buildText (offAt s.toks (tpre.length + 1 + ms.length)) nameT).isTextEmpty s.cs then none
+              else some (buildText (offAt s.toks (tpre.length + 1 + ms.length)) nameT),
+            c07w_timerFinishQty (buildText (offAt s.toks (tpre.length + 1 + ms.length)) nameT) s.cs s.ext⟩,
+            ⟨offAt s.toks tpre.length,
+             offAt s.toks (tpre.length + (c07p_comp tm ms nameT tob Q tcb).length)⟩⟩]) ++
+        evs2 ++ [.stop .step] ∧
+      SegsXEvs s.cs pre evs1 ∧ SegsXEvs s.cs post evs2 := by
+  have hB := c07w_timer_noqty_piece (α := α) s.toks tpre tpost s.cs s.ext tm ms nameT tob Q tcb ht hw sh hQ
+  obtain ⟨evs1, evsB, evs2, arr, h1, h2, h3, hq, h5⟩ :=
+    c07p_planted_step pre post _ _ s tpre tpost hspre hspost ht hc hp hw.run hpre hpost hB
+  subst hq
+  exact ⟨evs1, evs2, arr, h1, h2, h3, h5⟩
+
+/-! non-vacuity: the step `Use ~{} now` (every extension off): exactly `timer-neither-name-nor-quantity`, labelled
+    5..7 (from the name offset to the `}`), inside the construct 4..7; with TIMER_REQUIRES_TIME it is
+    `timer-missing-quantity` on the braces; `~?a|b{}(x)` under the extensions gets three head/note diagnostics -/
+def C07_plPre' : List SegX := [.text [tk .word "Use".toList, tk .ws [' ']]]
+def C07_w6Toks : List Tok :=
+  [⟨.word, "Use".toList, 0⟩, ⟨.ws, [' '], 3⟩, ⟨.tilde, ['~'], 4⟩, ⟨.openBrace, ['{'], 5⟩, ⟨.closeBrace, ['}'], 6⟩,
+   ⟨.ws, [' '], 7⟩, ⟨.word, "now".toList, 8⟩]
+def C07_w6State : BP Rat := ⟨C07_w6Toks, 0, ⟨0⟩, toyCharSpec, #[], none⟩
+theorem C07_w6WF : WF C07_w6Toks :=
+  WF.of_chain (off := 0) (by simp [C07_w6Toks, Chain, Tok.stop, utf8Len]; decide)
+    (by intro t ht; simp [C07_w6Toks] at ht; rcases ht with rfl | rfl | rfl | rfl | rfl | rfl | rfl <;> simp)
+    (by simp [C07_w6Toks])
+theorem C07_w6Shape : PlShapeN C07_w6State.ext .tilde ⟨.tilde, ['~'], 4⟩ [] [] ⟨.openBrace, ['{'], 5⟩ []
+    ⟨.closeBrace, ['}'], 6⟩ :=
+  ⟨rfl, Or.inl ⟨rfl, rfl⟩, by decide, rfl, by decide, rfl⟩
+example : ∃ (evs1 evs2 : List (Ev Rat)) (arr : Array (Ev Rat)),
+    parseStep C07_w6State = ((), { C07_w6State with cur := 7, evs := arr }) ∧
+    arr.toList = [.start .step] ++ evs1 ++
+      [.error ⟨.error, .parse, "timer-neither-name-nor-quantity", [⟨5, 7⟩]⟩,
+       .timer ⟨⟨none, some recoverPQuantity⟩, ⟨4, 7⟩⟩] ++ evs2 ++ [.stop .step] ∧
+    SegsXEvs toyCharSpec C07_plPre' evs1 ∧ SegsXEvs toyCharSpec C07_plPost evs2 :=
+  C07_planted_timer_no_quantity C07_plPre' C07_plPost C07_w6State
+    [⟨.word, "Use".toList, 0⟩, ⟨.ws, [' '], 3⟩] [⟨.ws, [' '], 7⟩, ⟨.word, "now".toList, 8⟩]
+    ⟨.tilde, ['~'], 4⟩ [] [] ⟨.openBrace, ['{'], 5⟩ [] ⟨.closeBrace, ['}'], 6⟩ (by decide) (by decide) rfl rfl rfl
+    C07_w6WF (by decide) (by decide) C07_w6Shape (by intro t h; cases h)
 
 end Cook
